@@ -241,6 +241,7 @@ func ruleC20(prog *Program, rep *Report) {
 	ruleCopyOrOriginal(prog, rep, 1, "asm")
 	rulePlanWrite(prog, rep)
 	rulePairwiseLookup(prog, rep, 1, "asm")
+	ruleContextForward(prog, rep)
 	ruleDivGuard(prog, rep, []string{"asm"}, map[string]bool{"asm": true}, 4)
 	// I-scratch: evaluation scratch maps are per iteration
 	rep.Rules = append(rep.Rules, "I-scratch: in package asm a map created outside a loop is not both written (m[k] = ...) and passed to a call inside that loop: the per-element evaluation context must be created in the iteration, or values left by one element are visible to the next")
